@@ -4,6 +4,7 @@ import SpsdkVerif.Proofs.HabBase
 import SpsdkVerif.Proofs.HabCsf
 import SpsdkVerif.Proofs.HabLayout
 import SpsdkVerif.Proofs.HabRoundtrip
+import SpsdkVerif.Proofs.HabSign
 
 namespace SpsdkVerif.Hab
 open SpsdkVerif SpsdkVerif.Misc SpsdkVerif.Generated
@@ -91,5 +92,64 @@ theorem front_quiet_lemma (c : Cfg) (h : c.WF) (hq : c.FrontQuiet) (o : Nat) (ho
   have : leDec (zeros 4) = 0 := by decide
   rw [this]
   simp [vectorOk]
+
+
+theorem blocks_addBlocks (c : Cmd) (bl : List (Nat × Nat)) (h : isAut c = true) : (c.addBlocks bl).blocks = c.blocks ++ bl := by
+  cases c <;> simp_all [isAut, Cmd.addBlocks, Cmd.blocks]
+
+theorem getLast_append_ne {α} (a b : List α) (h : b ≠ []) : (a ++ b).getLast? = b.getLast? := by
+  cases b with
+  | nil => exact absurd rfl h
+  | cons x r =>
+    rw [List.getLast?_append]
+    cases hh : (x :: r).getLast? with
+    | none => simp at hh
+    | some y => rfl
+
+/-- the block `AppHabSegment.parse` takes from the CSF of a built container is the application block -/
+theorem build_app_block (cr : Crypto.CryptoOps) (sg : Signer) (fuel : Nat) (c : Cfg) (b : Built) (h : c.WF)
+    (hb : build cr sg fuel c = some b) (ha : c.flags ≠ 0) (hl : Crypto.CryptoLaws cr) (hm : macLenOk c.macLen = true)
+    (h2 : (getAut 2 b.cmds).isSome = isEnc c.flags) :
+    csfAppBlock b.cmds = some (c.start + c.ivtOff + c.appOff, c.appBin.length) := by
+  have hf := flags_cases c.flags h.flags
+  obtain ⟨_, c1, hc1, hg1⟩ := auth_data_lemma cr sg fuel c b h hb ha
+  have ha1 := getAut_isAut 1 c.cmds c1 hc1
+  have happblk : (c.mkBlock c.appOff c.appBin.length).base = c.start + c.ivtOff + c.appOff := by
+    simp [Cfg.mkBlock, blockBaseN_eq]
+  unfold csfAppBlock
+  by_cases he : isEnc c.flags = true
+  · have h12 : c.flags = 12 := by
+      rcases h.flags with h0 | h0 | h0
+      · exact absurd h0 ha
+      · rw [hf.2.1, h0] at he; cases he
+      · exact h0
+    obtain ⟨mac, c2, _, hc2, hg2, _⟩ := enc_restores_lemma cr sg fuel c b h hb h12 hl hm
+    have ha2 := getAut_isAut 2 c.cmds c2 hc2
+    rw [hg2]
+    simp only [Option.map_some, blocks_addBlocks _ _ ha2]
+    have hne : (c2.cmd.blocks ++ blockPairs c.encryptedBlocks).isEmpty = false := by
+      simp [blockPairs, Cfg.encryptedBlocks]
+    rw [hne]
+    simp only [Bool.false_eq_true, ↓reduceIte]
+    rw [getLast_append_ne _ _ (by simp [blockPairs, Cfg.encryptedBlocks])]
+    simp [blockPairs, Cfg.encryptedBlocks, Cfg.mkBlock, blockBaseN_eq]
+  · have hn2 : getAut 2 b.cmds = none := by
+      cases hg : getAut 2 b.cmds with
+      | none => rfl
+      | some x =>
+        have : isEnc c.flags = true := by rw [← h2, hg]; rfl
+        exact absurd this he
+    rw [hn2, hg1]
+    simp only [Option.map_none, Option.map_some, Option.bind_some, blocks_addBlocks _ _ ha1]
+    have hne : blockPairs c.signedBlocks ≠ [] := by simp [blockPairs, Cfg.signedBlocks]
+    rw [getLast_append_ne _ _ hne]
+    have : ∃ pfx, blockPairs c.signedBlocks = pfx ++
+        [((c.mkBlock c.appOff c.appBin.length).base, (c.mkBlock c.appOff c.appBin.length).size)] := by
+      unfold Cfg.signedBlocks blockPairs
+      simp only [he, Bool.false_eq_true, ↓reduceIte, List.map_append, List.map_cons, List.map_nil]
+      exact ⟨_, rfl⟩
+    obtain ⟨pfx, e⟩ := this
+    rw [e, getLast_append_ne _ _ (by simp)]
+    simp [Cfg.mkBlock, blockBaseN_eq]
 
 end SpsdkVerif.Hab
